@@ -144,7 +144,8 @@ fn scenario(env: &Env, d: &mut Delta, rng: &mut impl Rng, sample: bool) {
             (_, 3) => kx.id ^= 1 << rng.gen_range(0..16),
             _ => kx.id = kx.id.wrapping_add(i as u16),
         }
-        if keys.contains(&kx) {
+        // datagrams that are in flight together must differ in their key (that is IP's own premise)
+        while keys.contains(&kx) {
             kx.id = kx.id.wrapping_add(100 + i as u16);
         }
         keys.push(kx);
